@@ -25,6 +25,7 @@ pub struct MtKid {
     poll_seq: AtomicU64,
     addr: AtomicUsize,
     mailbox: Mutex<Vec<Waker>>,
+    published: AtomicBool,
     // sources
     avail: AtomicU32,
     closed: AtomicBool,
@@ -40,6 +41,11 @@ pub struct Shared {
     viol: Mutex<Vec<(String, String, String)>>,
     wakers_done: AtomicBool,
     track_blocks: bool,
+    /// raw round: the children execute no read-modify-write and no SeqCst access on their poll
+    /// path (after the first poll), so that the harness adds no fence between the crate clearing a
+    /// slot's queued flag and the child looking at its state - the window in which a too weak
+    /// ordering in the crate loses a wake-up on real hardware
+    raw: bool,
 }
 
 impl Shared {
@@ -113,6 +119,24 @@ impl Future for MtChild {
     fn poll(self: Pin<&mut Self>, cx: &mut Context<'_>) -> Poll<usize> {
         let sh = &self.sh;
         let k = &sh.kids[self.id];
+        if sh.raw {
+            // loads and plain stores only
+            k.polls.store(k.polls.load(Relaxed) + 1, Relaxed);
+            if k.done.load(Relaxed) {
+                sh.violation("C05", "polled_after_finish", format!("child {} polled again after it finished", self.id));
+                return Poll::Pending;
+            }
+            if !k.published.load(Relaxed) {
+                // first poll: hand the waker out (all wakers of a child are interchangeable)
+                publish(k, sh, cx.waker());
+                k.published.store(true, Relaxed);
+            }
+            if k.ready.load(Acquire) {
+                k.done.store(true, Relaxed);
+                return Poll::Ready(self.id);
+            }
+            return Poll::Pending;
+        }
         if !poll_entry(sh, self.id, &*self as *const Self as usize) {
             return Poll::Pending;
         }
@@ -468,6 +492,7 @@ pub struct RoundCfg {
     pub migrate: bool,
     /// drop the collection after this many polls, while the waker threads are still at work
     pub cancel_after: Option<u64>,
+    pub raw: bool,
 }
 
 fn spin_or_yield(i: &mut u32) {
@@ -496,6 +521,7 @@ pub fn round(cfg: &RoundCfg, seed: u64) -> (Vec<(String, String, String)>, Round
                 poll_seq: AtomicU64::new(0),
                 addr: AtomicUsize::new(0),
                 mailbox: Mutex::new(Vec::new()),
+                published: AtomicBool::new(false),
                 avail: AtomicU32::new(0),
                 closed: AtomicBool::new(false),
                 produced: AtomicU32::new(0),
@@ -507,6 +533,7 @@ pub fn round(cfg: &RoundCfg, seed: u64) -> (Vec<(String, String, String)>, Round
         viol: Mutex::new(Vec::new()),
         wakers_done: AtomicBool::new(false),
         track_blocks: cfg.track_blocks,
+        raw: cfg.raw,
     });
     let subj = build(&cfg.kind, n, &sh, &mut rng);
     let is_merge = subj.is_merge();
@@ -543,7 +570,10 @@ pub fn round(cfg: &RoundCfg, seed: u64) -> (Vec<(String, String, String)>, Round
                     continue;
                 };
                 if r.chance(1, 4) {
-                    k.ready.store(true, SeqCst);
+                    // completion: publish the state, then wake (a completion is never silent)
+                    k.ready.store(true, Release);
+                    k.wake_seq.fetch_max(sh.seq.fetch_add(1, SeqCst), SeqCst);
+                    wk.wake_by_ref();
                 }
                 if r.chance(1, 2) {
                     // merges: make an item available (or close the source)
@@ -705,9 +735,19 @@ pub fn round(cfg: &RoundCfg, seed: u64) -> (Vec<(String, String, String)>, Round
                         // M-WAKE-MT final rule
                         for (i, kid) in sh.kids.iter().enumerate() {
                             let held = kid.drops.load(SeqCst) == 0 && !kid.done.load(SeqCst);
+                            // state-based rule (needs no instrumentation in the child): the
+                            // completion was published before the waker was invoked, so a poll
+                            // caused by that wake must have seen it
+                            if held && !is_merge && kid.ready.load(SeqCst) {
+                                sh.violation(
+                                    "C01",
+                                    "lost_wakeup",
+                                    format!("child {i} was completed and then woken on another thread, is still held and unfinished, and the task sleeps with its most recent waker ({k}) not invoked"),
+                                );
+                            }
                             let ws = kid.wake_seq.load(SeqCst);
                             let ps = kid.poll_seq.load(SeqCst);
-                            if held && ws != 0 && ws > ps {
+                            if held && !sh.raw && ws != 0 && ws > ps {
                                 sh.violation(
                                     "C01",
                                     "lost_wakeup",
